@@ -44,10 +44,13 @@ var msgs = []*descriptorpb.DescriptorProto{
 		dyn.F("page_size", 13, dyn.Int32),
 		dyn.F("labels", 14, dyn.Message, dyn.Rep(), dyn.Of(".rt.Req.LabelsEntry")),
 		dyn.F("subs", 15, dyn.Message, dyn.Rep(), dyn.Of(".rt.Req.SubsEntry")),
+		dyn.F("req_only", 16, dyn.Message, dyn.Of(".rt.Sub")), // a message field the response type does not have
 	),
+	// the response type differs from the request type: response_body selectors resolve here, not in Req
 	dyn.Msg("Rsp",
 		dyn.F("name", 1, dyn.String),
 		dyn.F("sub", 2, dyn.Message, dyn.Of(".rt.Sub")),
+		dyn.F("rsp_only", 3, dyn.Message, dyn.Of(".rt.Sub")), // a message field the request type does not have
 	),
 }
 var enums = []*descriptorpb.EnumDescriptorProto{dyn.EnumT("Kind", "KIND_UNSPECIFIED", "ALPHA", "BETA")}
@@ -167,7 +170,7 @@ func World(rs RuleSet, annotate bool) *dyn.World {
 func WorldRules(rules []*annotations.HttpRule) *dyn.World {
 	var svcs []*descriptorpb.ServiceDescriptorProto
 	for i, r := range rules {
-		ms := dyn.MethodSpec{Name: "Mth", In: ".rt.Req", Out: ".rt.Req", Rule: r}
+		ms := dyn.MethodSpec{Name: "Mth", In: ".rt.Req", Out: ".rt.Rsp", Rule: r}
 		svcs = append(svcs, dyn.Svc(fmt.Sprintf("Svc%d", i), ms))
 	}
 	w, err := dyn.NewWorld(dyn.File("rt.proto", Pkg, msgs, enums, svcs))
@@ -193,7 +196,19 @@ type Built struct {
 func Register(mux *larking.Mux, w *dyn.World, rec *Recorder, i int) (err error, pnc any, stack string) {
 	sd := w.ServiceDesc(ServiceName(i), func(ctx context.Context, fm string, req *dynamicpb.Message) (proto.Message, error) {
 		rec.add(Call{Method: fm, Msg: proto.Clone(req)})
-		return req, nil
+		// the reply mirrors what the two types share (name, sub)
+		rd := w.MsgDesc(Pkg + ".Rsp")
+		rsp := dynamicpb.NewMessage(rd)
+		q := req.ProtoReflect()
+		if f := q.Descriptor().Fields().ByName("name"); q.Has(f) {
+			rsp.Set(rd.Fields().ByName("name"), q.Get(f))
+		}
+		if f := q.Descriptor().Fields().ByName("sub"); q.Has(f) {
+			proto.Merge(rsp.Mutable(rd.Fields().ByName("sub")).Message().Interface(), q.Get(f).Message().Interface())
+		}
+		// (rsp_only stays empty: larking re-encodes a dynamicpb reply, whose field order on the
+		// wire is deliberately unstable, and several checks compare response bytes)
+		return rsp, nil
 	}, nil)
 	defer func() {
 		if p := recover(); p != nil {
@@ -294,6 +309,9 @@ func (b *Built) Do(verb, path, rawQuery string) Outcome {
 
 // ReqDesc returns the request message descriptor.
 func ReqDesc(w *dyn.World) protoreflect.MessageDescriptor { return w.MsgDesc("rt.Req") }
+
+// RspDesc is the response type (it shares name and sub with the request type).
+func RspDesc(w *dyn.World) protoreflect.MessageDescriptor { return w.MsgDesc("rt.Rsp") }
 
 // VerbMatches reports whether a rule verb (kind) accepts a request verb.
 func VerbMatches(ruleVerb, reqVerb string) bool {
